@@ -262,6 +262,79 @@ def check_wide_sparse(case, acc):
     acc.tag("wide_node_histories_without_reads_in_between")
 
 
+PICKLE_SCRIPT = r"""
+import pickle, sys
+from vf import nodes
+make = nodes.factory(sys.argv[1])
+tree = [make(i) for i in range(6)]
+for child, parent in ((1, 0), (2, 1), (3, 2), (4, 0), (5, 4)):
+    tree[child].parent = tree[parent]
+for n in tree:  # every attribute is read once before the tree leaves this process
+    n.depth, n.height, n.size, n.path, n.leaves, n.siblings, n.children, n.ancestors, n.descendants, n.is_leaf, n.is_root, n.root
+sys.stdout.buffer.write(pickle.dumps(tree[0], 4))
+"""
+
+
+LOAD_SCRIPT = r"""
+import pickle, sys
+from vf import nodes
+make = nodes.factory(sys.argv[1])
+data = sys.stdin.buffer.read()
+problems = []
+for extra in range(0, 12):
+    root = pickle.loads(data)
+    a = root.children[0]; b = a.children[0]; c = b.children[0]
+    fresh = [make(100 + i) for i in range(extra)]
+    b.parent = root            # changes the depth of b and c; nothing is read from here on ...
+    for node in fresh:
+        node.parent = root     # ... while further link changes happen elsewhere in the tree
+    todo, everything = [root], []
+    while todo:
+        cur = todo.pop(); everything.append(cur); todo.extend(cur.children)
+    for n in everything:
+        chain = []
+        cur = n.parent
+        while cur is not None:
+            chain.append(cur); cur = cur.parent
+        below, stack = [], list(reversed(n.children))
+        while stack:
+            cur = stack.pop(); below.append(cur); stack.extend(reversed(cur.children))
+        def height(x):
+            return 1 + max(height(k) for k in x.children) if x.children else 0
+        want = {"depth": len(chain), "ancestors": len(chain), "path": len(chain) + 1, "size": len(below) + 1, "descendants": [id(x) for x in below],
+                "leaves": [id(x) for x in [n] + below if not x.children], "height": height(n), "is_root": n.parent is None, "is_leaf": not n.children,
+                "siblings": [id(x) for x in (n.parent.children if n.parent is not None else ()) if x is not n], "root": id(chain[-1] if chain else n)}
+        got = {"depth": n.depth, "ancestors": len(n.ancestors), "path": len(n.path), "size": n.size, "descendants": [id(x) for x in n.descendants],
+               "leaves": [id(x) for x in n.leaves], "height": n.height, "is_root": n.is_root, "is_leaf": n.is_leaf, "siblings": [id(x) for x in n.siblings], "root": id(n.root)}
+        for key in want:
+            if want[key] != got[key]:
+                problems.append("%d extra nodes: %s of node %r is %r, the links say %r" % (extra, key, getattr(n, "name", None), got[key] if not isinstance(got[key], list) else len(got[key]), want[key] if not isinstance(want[key], list) else len(want[key])))
+print("SAME" if not problems else "; ".join(problems[:4]))
+"""
+
+
+def check_cross_process(case, acc):
+    """A tree that was built and read in one process, pickled there, and loaded in ANOTHER fresh process, changed there
+    without reads and compared with the definitions: whatever a node remembers about itself must not outlive the process
+    that computed it (counters and caches start again in every process)."""
+    import os
+    import subprocess
+    import sys
+
+    from .. import core
+
+    env = dict(os.environ, PYTHONPATH=os.pathsep.join([core.REPO, core.ROOT]))
+    first = subprocess.run([sys.executable, "-c", PICKLE_SCRIPT, case["cls"]], env=env, stdout=subprocess.PIPE, stderr=subprocess.PIPE, timeout=120)
+    if first.returncode != 0:
+        raise Violation("unexpected-exception", "building and pickling a %s tree in a child interpreter failed: %s" % (case["cls"], first.stderr.decode("utf-8", "replace")[-600:]))
+    second = subprocess.run([sys.executable, "-c", LOAD_SCRIPT, case["cls"]], env=env, input=first.stdout, stdout=subprocess.PIPE, stderr=subprocess.PIPE, timeout=120)
+    out = second.stdout.decode("utf-8", "replace").strip()
+    if out != "SAME":
+        raise Violation("depth" if "depth" in out else "attributes", "%s tree pickled in one process, loaded and changed in another: %s %s" % (case["cls"], out, second.stderr.decode("utf-8", "replace")[-400:]))
+    acc.nontrivial(True)
+    acc.tag("trees_pickled_in_another_process")
+
+
 def check_deep_bushy(case, acc):
     """The downward-recursive attributes on a deep AND bushy tree (every spine node has a leaf as first child and the next
     spine node as second): the interpreter's recursion limit is a legitimate way out (RecursionError), a wrong value or a
@@ -370,6 +443,8 @@ def check_case(case, acc):
         return check_deep_bushy(case, acc)
     if case["kind"] == "wide-sparse":
         return check_wide_sparse(case, acc)
+    if case["kind"] == "cross-process":
+        return check_cross_process(case, acc)
     if case["kind"] == "wide":
         return check_wide(case, acc)
     make = nodes.factory(case["cls"])
@@ -460,6 +535,7 @@ def plan(tier, seed):
     tasks += [{"engine": "wide", "width": w, "cls": c, "via": v} for w in ((300, 700) if tier == "quick" else (257, 300, 700, 2000)) for c, v in (("Node", "parent"), ("SlotLM", "children"), ("AnyNode", "children"))]
     tasks += [{"engine": "deep", "depth": d, "cls": c} for d in ((700, 1500) if tier == "quick" else (300, 700, 1500, 3000)) for c in ("Node", "SlotLM", "AnyNode")]
     tasks += [{"engine": "wide-sparse", "cls": c, "width": w, "length": 4 if tier == "quick" else 5} for c in ("SlotLM", "DictLM", "Node") for w in (9, 12)]
+    tasks += [{"engine": "cross-process", "cls": c} for c in ("Node", "SlotLM", "DictLM", "AnyNode")]
     tasks += [{"engine": "deep-bushy", "factor": f, "cls": c} for f in ((0.6, 1.3) if tier == "quick" else (0.3, 0.6, 0.9, 1.3, 2.5)) for c in ("Node", "SlotLM")]
     return tasks
 
@@ -483,6 +559,12 @@ def run_task(task, acc):
         import itertools
 
         return acc.run_enum(check_case, ({"kind": "wide-sparse", "cls": task["cls"], "width": task["width"], "ops": list(ops)} for ops in itertools.product(WIDE_OPS, repeat=task["length"])))
+    if task["engine"] == "cross-process":
+        case = {"kind": "cross-process", "cls": task["cls"], "max_extra": 12}
+        exc = acc.evaluate(check_case, case, enumerated=False)
+        if exc is not None:
+            acc.add_violation(case, exc)
+        return
     if task["engine"] == "deep-bushy":
         case = {"kind": "deep-bushy", "factor": task["factor"], "cls": task["cls"]}
         exc = acc.evaluate(check_case, case, enumerated=False)
